@@ -284,7 +284,7 @@ func (g *chainGen) buildLevel(depth int, initial Files, signers []*TestKey, name
 			if wantCertOnly {
 				certChain = rng.Pick([]string{"direct", "inter-layout", "inter-layout", "inter-caller"})
 			}
-			dnsDecides = rng.Chance(10) && !wantCertOnly
+			dnsDecides = rng.Chance(20) && !wantCertOnly
 			if dnsDecides {
 				certChain = rng.Pick([]string{"direct", "inter-layout"})
 			}
@@ -318,7 +318,11 @@ func (g *chainGen) buildLevel(depth int, initial Files, signers []*TestKey, name
 			}
 			if dnsDecides || rng.Chance(35) {
 				wantDNS = []any{"a.example.org", "b.example.org"}
-				switch rng.Intn(10) {
+				pick := rng.Intn(10)
+				if dnsDecides && rng.Bool() {
+					pick = 0
+				}
+				switch pick {
 				case 0, 1, 2:
 					leafDNS = []string{"a.example.org", "a.example.org"}
 					lv.Feat = append(lv.Feat, "dns-repeated")
